@@ -1,6 +1,6 @@
 /-
 Model of `app/ldiff` (diff.go, hashrange.go) — the range-hash index and the diff recursion,
-with the four `fix:` commits applied (nilhash, update, merge, bottomrange).
+with the five `fix:` repairs applied (nilhash, update, merge, bottomrange, width).
 
 What is mirrored, function by function:
 
@@ -9,6 +9,7 @@ What is mirrored, function by function:
   skiplist ordered by (xxhash(id),id)  `List Elem` kept sorted by `Elem.lt` (`slInsert`, `slRemove`)
   genTupleRanges                       `genTupleRanges` / `childRange` (uint64 arithmetic, explicit `% M`)
   getBottomRange (bucket clamp)        `bucketOf`
+  canDivide (fix-width)                `canDivide` (= `Splitter.wide`): a narrower range is never divided
                                        both packaged as `goSplit : Splitter`; the tree functions take
                                        an arbitrary `Splitter` (theorems hold for every one with `SplitOk`)
   hashRange{elements,isDivided,hash}   `Tree.leaf cnt hash` / `Tree.div cnt hash kids`
@@ -118,8 +119,13 @@ the Go arithmetic is the instance `goSplit`. -/
 structure Splitter where
   child : (lo hi df i : Nat) → Nat × Nat
   bucket : (lo hi df h : Nat) → Option Nat
+  /-- `canDivide` (fix-width): the range holds at least `df` hash values -/
+  wide : (lo hi df : Nat) → Bool
 
-def goSplit : Splitter := ⟨childRange, bucketOf⟩
+/-- `canDivide(from, to, divideFactor)`: `to-from >= uint64(divideFactor)-1` -/
+@[irreducible] def canDivide (lo hi df : Nat) : Bool := decide ((hi + M - lo) % M ≥ (df + M - 1) % M)
+
+def goSplit : Splitter := ⟨childRange, bucketOf, canDivide⟩
 
 inductive Tree (D : Type) where
   | leaf (cnt : Nat) (hash : Option D)
@@ -150,9 +156,9 @@ def mkLeaf {D} (A : DigAlg D) (sl : List Elem) (lo hi : Nat) : Tree D :=
 `fuel` is the depth budget; when it is exhausted a further division is `stuck`. -/
 def build {D} (A : DigAlg D) (S : Splitter) (p : Params) (sl : List Elem) : (fuel : Nat) → (lo hi : Nat) → Tree D
   | 0, lo, hi =>
-    if (slRange sl lo hi).length > p.thr then .stuck else mkLeaf A sl lo hi
+    if (slRange sl lo hi).length > p.thr ∧ S.wide lo hi p.df = true then .stuck else mkLeaf A sl lo hi
   | fuel + 1, lo, hi =>
-    if (slRange sl lo hi).length > p.thr then
+    if (slRange sl lo hi).length > p.thr ∧ S.wide lo hi p.df = true then
       .div (slRange sl lo hi).length
         (kidsHash A ((List.range p.df).map fun i =>
           build A S p sl fuel (S.child lo hi p.df i).1 (S.child lo hi p.df i).2))
@@ -177,12 +183,12 @@ def addEl {D} (A : DigAlg D) (S : Splitter) (p : Params) (sl : List Elem) (h : N
     (fuel : Nat) → Tree D → (lo hi : Nat) → Tree D
   | 0, t, lo, hi =>
     match t with
-    | .leaf cnt _ => if cnt + 1 > p.thr then .stuck else mkLeaf A sl lo hi
+    | .leaf cnt _ => if cnt + 1 > p.thr ∧ S.wide lo hi p.df = true then .stuck else mkLeaf A sl lo hi
     | _ => .stuck
   | f + 1, t, lo, hi =>
     match t with
     | .leaf cnt _ =>
-      if cnt + 1 > p.thr then
+      if cnt + 1 > p.thr ∧ S.wide lo hi p.df = true then
         .div (cnt + 1) (kidsHash A (buildKids A S p sl f lo hi)) (buildKids A S p sl f lo hi)
       else mkLeaf A sl lo hi
     | .div cnt _ kids =>
@@ -393,7 +399,8 @@ def compareResults {D} [DecidableEq D] (A : DigAlg D) (S : Splitter) (greater : 
   else if otherRes.elems.length = otherRes.count then
     if myRes.elems.length = myRes.count then cmpEls greater c myRes.elems otherRes.elems
     else cmpEls greater c (my.getRange A S r.lo r.hi true).elems otherRes.elems
-  else if (otherRes.count ≤ my.p.thr ∧ otherRes.elems.length = 0) ∨ myRes.elems.length = myRes.count then
+  else if (otherRes.count ≤ my.p.thr ∧ otherRes.elems.length = 0) ∨ myRes.elems.length = myRes.count
+      ∨ S.wide r.lo r.hi my.p.df = false then
     { c with prepare := c.prepare ++ [{ r with els := true }] }
   else
     { c with prepare := c.prepare ++ (genTupleRanges r.lo r.hi my.p.df).map fun t => ⟨t.1, t.2, false⟩ }
